@@ -37,6 +37,12 @@ func c08Step(x *engine.Exec) []engine.Failure {
 		if len(prev.Vals[x.Op.V].ValShares) == 0 {
 			x.Cnt.Inc("slash.validator_without_alliance_stake")
 		}
+		for _, r := range ref.pendingRedsFrom(x.Op.V, prev.Time) {
+			if _, err := x.W.App.StakingKeeper.GetValidator(x.Prev.Ctx, x.W.Vals[r.Dst]); err != nil {
+				x.Cnt.Inc("slash.with_pending_redelegation_into_removed_validator")
+				break
+			}
+		}
 		if x.Res.EffFrac.IsNil() || x.Res.EffFrac.IsZero() {
 			// x/staking computed a zero burn (validator power 0): it does not call the hook at all
 			x.Cnt.Inc("slash.zero_effective_fraction_no_callback")
@@ -56,6 +62,7 @@ func c08Step(x *engine.Exec) []engine.Failure {
 			abortCause = "reward-pool-short"
 		}
 		if hookErr != "" {
+			x.Cnt.Inc("slash.callback_aborted")
 			cause := "other"
 			switch {
 			case x.Res.Panicked:
@@ -68,6 +75,8 @@ func c08Step(x *engine.Exec) []engine.Failure {
 				cause = "asset-deleted"
 			case strings.Contains(hookErr, "insufficient funds"):
 				cause = "reward-pool-short"
+			case strings.Contains(hookErr, "does not exist"):
+				cause = "destination-validator-removed"
 			}
 			out = append(out, fail("callback-error", cause, "slash(v%d,%s) callback failed: %s", x.Op.V, x.Op.F, hookErr))
 		}
@@ -91,7 +100,8 @@ func c08Step(x *engine.Exec) []engine.Failure {
 			if sh.Sign() > 0 {
 				after := x.Next.Snap().Vals[x.Op.V].ValShares[den]
 				if after != nil && after.Cmp(sh) >= 0 {
-					out = append(out, fail("incomplete-slash", causeIf(hookErr != "", abortCause, ""), "slash(v%d,%s): validator shares of %s not reduced", x.Op.V, x.Op.F, den))
+					// the bonded stake is slashed before any stage of the callback that can fail: an abort further down never explains this
+					out = append(out, fail("incomplete-slash", "bonded-stake-not-slashed", "slash(v%d,%s): validator shares of %s not reduced (callback error: %q)", x.Op.V, x.Op.F, den, hookErr))
 				}
 			}
 		}
@@ -158,6 +168,17 @@ func c08Ops(tier string, fracs []string) func(n *engine.Node) []world.Op {
 	}
 }
 
+// c08AbortSeed: full-pipeline history (world c07Config + FullPipeline) after which the next slash of V0 aborts inside the
+// callback with an overdrawn rewards pool (K-C08-reward-pool-short).
+func c08AbortSeed() []world.Op {
+	return []world.Op{
+		opDel(0, 0, "aaa", "1000"), opDel(0, 1, "aaa", "1000"), opDel(1, 0, "aaa", "1000"), opDel(1, 1, "aaa", "1000"),
+		opDel(0, 0, "bbb", "1000"),
+		opRed(0, 0, 1, "aaa", "300"), opRed(1, 0, 1, "aaa", "300"),
+		{K: world.KUndelegateAll, D: 0, V: 0, Denom: "aaa"}, opBlock(1), opSlash(0, "0.5"), opBlock(1),
+	}
+}
+
 func init() {
 	seed := []world.Op{
 		opDel(0, 0, "aaa", "1000"), opDel(0, 1, "aaa", "1000"), opDel(1, 0, "aaa", "1000"), opDel(1, 1, "aaa", "1000"),
@@ -188,15 +209,47 @@ func init() {
 			full := c07Config()
 			full.FullPipeline = true
 			fr := []string{"0.01", "0.5", "1"}
+			// the destination VALIDATOR of a pending redelegation disappears: V2's only native delegator leaves, alliance stake is
+			// redelegated to V2 while it unbonds (the module never stakes on a validator that is not bonded), x/staking removes
+			// V2 when its unbonding ends, and the source is slashed while the redelegation is still pending
+			removedDst := func(budgets []int, depth int) *engine.Scenario {
+				sc := mk("c08-removed-destination", full, fr, budgets, depth, world.AllStores)
+				sc.Seeds = [][]world.Op{{opDel(0, 0, "aaa", "1000000"), opDel(1, 0, "aaa", "500000"), opDel(1, 1, "aaa", "500000"), opBlock(1)}}
+				sc.Ops = func(n *engine.Node) []world.Op {
+					return []world.Op{
+						{K: world.KRedelegate, D: 0, V: 0, V2: 2, Denom: "aaa", Amt: "300000", Class: ClsUser},
+						{K: world.KRedelegate, D: 1, V: 0, V2: 1, Denom: "aaa", Amt: "100000", Class: ClsUser},
+						{K: world.KUndelegate, D: 0, V: 0, Denom: "aaa", Amt: "200000", Class: ClsUser},
+						{K: world.KNUndelegateAll, D: 99, V: 2, Class: ClsEnv},
+						{K: world.KSlash, V: 0, F: "0.5", Class: ClsSlash},
+						{K: world.KBlock, Dt: int64(U), Class: ClsBlock},
+						{K: world.KBlock, Dt: int64(2 * U), Class: ClsBlock},
+					}
+				}
+				sc.Required = []string{"slash.executed", "slash.with_pending_redelegation_into_removed_validator"}
+				return sc
+			}
+			// third seed of the staking-slash scenario: a history after which the next slash of V0 aborts inside the callback
+			// (K-C08-reward-pool-short: slashed unbonding tokens were recycled as rewards, an earlier slash raised token values);
+			// what precedes the failing stage - the bonded slash - must have happened all the same
+			abortSeed := c08AbortSeed()
+			staking := func(fracs []string, budgets []int, depth int) *engine.Scenario {
+				sc := mk("c08-staking-slash", full, fracs, budgets, depth, world.AllStores)
+				sc.Seeds = [][]world.Op{seed, dustSeed, abortSeed}
+				sc.Required = append(append([]string{}, sc.Required...), "slash.callback_aborted")
+				return sc
+			}
 			if tier == "thorough" {
 				return []*engine.Scenario{
 					mk("c08-hook", c07Config(), fr, []int{5, 2, 0, 2, 1}, 9, world.ModuleStores),
-					mk("c08-staking-slash", full, fr, []int{4, 2, 0, 2, 1}, 7, world.AllStores),
+					staking(fr, []int{4, 2, 0, 2, 1}, 7),
+					removedDst([]int{3, 2, 1, 5, 0}, 10),
 				}
 			}
 			return []*engine.Scenario{
 				mk("c08-hook", c07Config(), []string{"0.01", "1"}, []int{3, 2, 0, 1, 1}, 5, world.ModuleStores),
-				mk("c08-staking-slash", full, []string{"0.5", "1"}, []int{3, 1, 0, 1, 1}, 4, world.AllStores),
+				staking([]string{"0.5", "1"}, []int{3, 1, 0, 1, 1}, 4),
+				removedDst([]int{2, 1, 1, 4, 0}, 8),
 			}
 		},
 		Assumptions: []string{
